@@ -42,4 +42,24 @@ CLAIMED["C03"] = dict(
     technique="TLA+ total-function/grammar spec + TLC trace validation of recorded calls with measured panics, time and allocation",
     ref="5/C03")
 
+CLAIMED["C18"] = dict(
+    text="DER.tla builds both SubjectPublicKeyInfo forms byte for byte (the RSASSA-PSS AlgorithmIdentifier is written out from "
+         "RFC 9578) and parses them back; TLC checks ParseInverts/SelfDelimiting exhaustively for short moduli and for long moduli "
+         "across the DER length-form boundaries, and validates a recorded trace of MarshalTokenKey*/UnmarshalTokenKey for seeded "
+         "moduli of every byte length 1..520 and of issuers of every type: key id = SHA-256(serialized key), truncated id = last "
+         "byte, name key id = SHA-256(EncapKey encoding re-encoded by TLC).",
+    note="SHA-256 is uninterpreted in TLA+: the harness logs crypto/sha256 of the logged bytes and the specification states "
+         "which logged value must equal it. Moduli are seeded samples per length.",
+    technique="TLA+ DER spec + TLC exhaustive parse/encode laws + TLC trace validation of recorded key (de)serialisation and key-id derivation",
+    ref="5/C18")
+CLAIMED["C20"] = dict(
+    text="OriginPad.tla defines Pad/Unpad/Blocks/WireSize and the issuer's registered-origin table; TLC checks UnpadInvertsPad, "
+         "PaddedLenLaw, WireSizeDependsOnBlocksOnly and NearMissRefused for every name length up to the bound, and validates "
+         "recorded pad/unpad calls for every length 0..130 (+ every multiple of 32 +-1 to 4096; thorough: 0..4100) and recorded "
+         "issuer histories in which look-alike origins are registered and real client requests are evaluated: logged request "
+         "size = WireSize(Blocks(len)), served iff registered.",
+    note="Name bytes are seeded per length. The request size formula is the type-3 grammar's; the HPKE/AEAD overheads (32+16) are constants of the fixed suite.",
+    technique="TLA+ padding/state-machine spec + TLC exhaustive laws over lengths + TLC trace validation of recorded issuer histories",
+    ref="5/C20")
+
 NOT_YET = "check not built yet in this round (see DESIGN.md section 11 for the build order); no claim is made"
